@@ -43,6 +43,8 @@ theorem counts_swap (cols : List Col) (i j : Nat) :
   show ((fill (cols.map Prod.swap) (i : Int) (j : Int) : Nat) : Rat) = ((fill cols (j : Int) (i : Int) : Nat) : Rat)
   rw [fill_eq_cnt, fill_eq_cnt, cnt_swap]
 
+example : ofCounts (fill ([((2 : Int), (3 : Int)), (2, 3), (1, 0)].map Prod.swap)) 3 2 = 2 := by decide +kernel
+
 /-- Every estimator's pre-log quantities, and the duplicate test, are invariant under transposing the
 count matrix; with `counts_swap` this makes every distance symmetric. -/
 theorem stat_symmetric (c : Calc) (m : M4) :
@@ -181,6 +183,17 @@ theorem nj_three_point (d : Mat) (hs : Sym d 3) (hz : ZeroDiag d 3) :
 theorem nj_loop_ends_with_three (n : Nat) (hn : 3 ≤ n) (sel : PT → Nat × Nat) (d : Mat) :
     (njLoop sel n (star n d)).L = 3 :=
   njLoop_L sel n (star n d) hn (by show n - 3 ≤ n; omega)
+
+example : Sym [[0, 3, 4], [3, 0, 5], [4, 5, 0]] 3 ∧ ZeroDiag [[0, 3, 4], [3, 0, 5], [4, 5, 0]] 3 := by
+  constructor
+  · intro a b ha hb
+    have : a = 0 ∨ a = 1 ∨ a = 2 := by omega
+    have : b = 0 ∨ b = 1 ∨ b = 2 := by omega
+    rcases ‹a = 0 ∨ _› with rfl | rfl | rfl <;> rcases ‹b = 0 ∨ _› with rfl | rfl | rfl <;> decide +kernel
+  · intro a ha
+    have : a = 0 ∨ a = 1 ∨ a = 2 := by omega
+    rcases this with rfl | rfl | rfl <;> decide +kernel
+example : finalLen [[0, 3, 4], [3, 0, 5], [4, 5, 0]] 0 = 1 := by decide +kernel
 
 /-- NJ realises `D` whenever every selected pair is a cherry of the current matrix — for ANY selection rule
 `sel` (in particular for `pickPair`, the model of `argsort(scores)[first off-diagonal]`, and for any other
